@@ -141,8 +141,8 @@ def install(ctx):
 
 
 def gen_case(rng, tier, ctx, i):
-    if rng.random() < 0.025:
-        rec = common.deep_chain(rng, rng.randint(34, 46))        # very deep nesting
+    if rng.random() < 0.006:
+        rec = common.deep_chain(rng, rng.randint(34, 40))        # very deep nesting
         ctx.count("count:deep-models")
         return {"recipe": rec, "via": rng.choice(["negate", "Not"])}
     if rng.random() < 0.15:
